@@ -6,7 +6,8 @@ verdict for a path that executes one.
 """
 import re
 
-RE_FN = re.compile(r"^(?:fn|const|static(?: mut)?) (.+?)(?:\((.*)\) -> (.+?)|: (.+?) =) \{\s*$")
+RE_FN = re.compile(r"^(?:fn) (.+?)(?:\((.*)\) -> (.+?)) \{\s*$")
+RE_CONST = re.compile(r"^(?:const|static(?: mut)?) (.+): (.+?) = \{\s*$")
 RE_BB = re.compile(r"^\s*bb(\d+)( \(cleanup\))?: \{\s*$")
 RE_LET = re.compile(r"^\s*let (mut )?_(\d+): (.+);\s*$")
 RE_DEBUG = re.compile(r"^\s*debug (\S+) => (.+);\s*$")
@@ -558,11 +559,11 @@ class Module:
             if cur is None:
                 m = RE_FN.match(line)
                 if m and not line.startswith(" "):
-                    kind = line.split(" ", 1)[0]
-                    if m.group(4) is not None:
-                        cur = Func(m.group(1), "", m.group(4), "const", i + 1)
-                    else:
-                        cur = Func(m.group(1), m.group(2), m.group(3), "fn", i + 1)
+                    cur = Func(m.group(1), m.group(2), m.group(3), "fn", i + 1)
+                else:
+                    m = RE_CONST.match(line)
+                    if m and not line.startswith(" "):
+                        cur = Func(m.group(1), "", m.group(2), "const", i + 1)
                 i += 1
                 continue
             if line.startswith("}"):
